@@ -111,7 +111,8 @@ def gen_program(rng, st, n_ops):
                 if a:
                     t = g.types[a - 1]
                     sh = shape_of(t)
-                    g.add(nd("Get", [a], index=[rng.randrange(sh[0])]), T(t["st"], sh[1:]))
+                    k = rng.randint(1, len(sh))      # any number of leading axes
+                    g.add(nd("Get", [a], index=[rng.randrange(sh[i]) for i in range(k)]), T(t["st"], sh[k:]))
             elif kind == "permute":
                 a = g.pick(g.arrays(None, 2))
                 if a:
